@@ -124,6 +124,40 @@ CLAIMED['C11'] = dict(
     note='Trusted: Coq kernel; translator hook_order.py; harness. Modelled: gather of non-suspending implementations (checked per run), dict order. No axioms.',
     technique='Coq fold invariants over WF prefixes; tables regenerated by ast translator; differential correspondence', design='5/C11')
 
+CLAIMED['C14'] = dict(
+    text='Machine-checked proof (Coq 8.16.1) on Life/Model.v: for every label sequence run numbers are handed out consecutively '
+         '(next = previous + 1 unless a reset record restarting the numbering lies between), every record of a run carries its number, '
+         'at every start-run the script and flags are those on display (last published statement / run info = run_arg = composer), '
+         'a reset that returns has taken FULL effect (its options written over the composer as it was when it got the lock; the others '
+         'kept) and a refused reset changes nothing, and no run starts while a reset is half way. (One clause of the plan was false as '
+         'worded and is proved in the corrected form: a run\'s segment starts at its run_no publication, see C14_numbers_carried_refuted.)' + LIFE_TIE,
+    note=LIFE_NOTE, technique='Coq: step classification into 10 kinds + state/history/ghost-snapshot invariants; co-simulation + oracle', design='5/C14')
+CLAIMED['C16'] = dict(
+    text='Machine-checked proof (Coq 8.16.1) on Life/Model.v: for every label sequence the continuous flag equals "a continue request is '
+         'pending or its run is in progress", a refused request leaves no plugin of its own and restores the flag, a plugin answers '
+         'prompts only during the run its own request started (at most one), during a run requested with plain run() no plugin is '
+         'started whatever happened before, run_finish clears it, nothing is published after close.' + LIFE_TIE,
+    note=LIFE_NOTE, technique='Coq invariant (cont_inv + converse) over the interleaving LTS; co-simulation + oracle', design='5/C16')
+CLAIMED['C18'] = dict(
+    text='Machine-checked proof (Coq 8.16.1) of the REPAIRED ThreadDoneCallback at bytecode granularity: the sequences of shared accesses '
+         'of register/_monitor/close are REGENERATED from `dis` on every run and proved equal to the programs of the interleaving model '
+         '(a heap of set objects, the lock, unbounded registering threads, adversarial scheduler); theorems for every schedule: a callback '
+         'is never invoked twice, for an unregistered thread or before its end; once close() has returned every thread registered before '
+         'close() has ended and was called back exactly once; close() re-raises the first callback exception; the iteration error is '
+         'impossible; task half likewise. Tie: an opcode scheduler interleaves the REAL class deterministically (exhaustive placements '
+         'for 1-2 threads, random beyond), observations compared with the model. No liveness theorem (drained runs only).',
+    note='Trusted: Coq kernel; dis translator; opcode scheduler harness. Modelled: single bytecodes atomic under the GIL, threading.Lock, Thread.join. No axioms.',
+    technique='Coq interleaving invariant (35 fields) over a model regenerated from bytecode; deterministic opcode-level replay on the real class', design='5/C18')
+CLAIMED['C10'] = dict(
+    text='Machine-checked proof (Coq 8.16.1): model of the relay (child buffer and flush, kill, FIFO pipe with sentinel, monitor task, '
+         'main task with drain loop and a nondeterministic timeout); for every interleaving: delivered = emitted in order at end-run after '
+         'a normal exit, a prefix on kill, every delivery between the start-run and end-run calls (under the explicit boot assumption; '
+         'C10_bracket_needs_boot shows it is needed), nothing after end-run, hooks never overlap. PARTIAL: the pipe, feeder threads and the '
+         'process are modelled; tie = real runs through the public API (bursts of >10^4 events, slow hooks, kills at event k) vs the model '
+         'and the in-process reference stream.',
+    note='Trusted: Coq kernel; harness. Assumptions (named): FIFO, flush-before-exit, boot, timer as a label. Known hazard (child killed while writing the queue) recorded under C02/C17. No axioms.',
+    technique='Coq invariant over an interleaving LTS; real-process correspondence', design='5/C10')
+
 NOT_YET = {
 }
 
